@@ -191,8 +191,14 @@ def run(ctx):
             if orc:
                 stats["oracle"] += 1
                 bl, cl = orc["B_limit"], orc["C_limit"]
+                # truncation error of the extrapolation: difference to the estimate with a 16 times smaller base step
+                blf, clf = num(orc.get("B_limit_fine")), num(orc.get("C_limit_fine"))
+                unc_b = 2.0 * abs(bl - blf) if blf is not None else 0.0
+                unc_c = 2.0 * abs(cl - clf) if clf is not None else 0.0
+                if blf is not None:
+                    bl = blf
                 scale_b = max(abs(B), abs(bl))
-                okB = abs(B - bl) <= RTOL_B * scale_b + 1e-9
+                okB = abs(B - bl) <= RTOL_B * scale_b + 1e-9 + unc_b
                 stats["worst_oracle_B"] = max(stats["worst_oracle_B"], abs(B - bl) / (scale_b + 1e-300)) if okB else stats["worst_oracle_B"]
                 if not okB:
                     # localise: a contribution whose zero-density path value is exactly 0 while the code is iterative there
@@ -205,7 +211,7 @@ def run(ctx):
                     report(cfg, "limit_mismatch", contrib, "B reported %r but (Z-1)/rho -> %r as rho -> 0%s"
                            % (B, bl, (" (contribution %s is dropped on the zero-density path)" % contrib) if contrib else ""),
                            dict(where, oracle=orc))
-                elif C is not None and not abs(C - cl) <= RTOL_C * max(abs(C), abs(cl)) + 1e-3 * abs(B) ** 2:
+                elif C is not None and not abs(C - cl) <= RTOL_C * max(abs(C), abs(cl)) + 1e-3 * abs(B) ** 2 + unc_c:
                     report(cfg, "limit_mismatch", None, "C reported %r but d((Z-1)/rho)/drho -> %r as rho -> 0" % (C, cl),
                            dict(where, oracle=orc))
             for (q, x, key) in (("dB_dT", dB, "dB_dT_fd"), ("dC_dT", dC, "dC_dT_fd")):
